@@ -192,6 +192,59 @@ def run(ctx):
             ob2.unknown("%s: init sequence is not a literal list" % fname)
             continue
         seqs[mt] = (fname, seq)
+    MRCMD = MRCMD0 = "DFII_COMMAND_RAS|DFII_COMMAND_CAS|DFII_COMMAND_WE|DFII_COMMAND_CS"
+    # ---- electrical settings (second evaluation, with the optional attributes present): whatever a termination / drive-strength option is set to,
+    #      it may only move the bits JEDEC gives to termination and drive strength - never a latency or mode field the controller relies on
+    ELEC_OK = {"DDR2": {1: {1, 2, 6}}, "DDR3": {1: {1, 5, 2, 6, 9, 11}, 2: {9, 10}}, "DDR4": {1: {1, 2, 8, 9, 10, 11}, 2: {9, 10, 11}, 5: {6, 7, 8}}}
+    ELEC_ATTR = {k_: True for k_ in NOATTR}
+    for mt in ("DDR2", "DDR3", "DDR4"):
+        fname = FUNCS[mt]
+        el = Elab(ctx.repo, hasattrs=ELEC_ATTR, overrides={"phy_settings.is_rdimm": Const(False), "phy_settings.memtype": Const(mt)})
+        f = el.modenv(INIT).vars.get(fname)
+        if f is None:
+            continue
+        try:
+            r = el.call_func(f, [Sym("phy_settings"), Sym("timing_settings")], {})
+        except Exception as e:
+            ob2.instance("%s electrical settings" % mt, "not evaluated (%s)" % type(e).__name__)
+            continue
+        seq = r.items[0] if isinstance(r, ListV) and r.items and isinstance(r.items[0], ListV) else None
+        if seq is None:
+            continue
+        for e in seq.items:
+            if not (isinstance(e, ListV) and len(e.items) == 5):
+                continue
+            comment, a, ba, cmd, delay = e.items
+            if not (isinstance(cmd, Const) and cmd.v == MRCMD0 and isinstance(ba, Const)):
+                continue
+            atoms = {}
+            for t in subterms(a):
+                if isinstance(t, Op) and t.op == "index" and isinstance(t.args[0], DictV) and any(x in NOATTR for x in support(t.args[1])):
+                    atoms[key(t)] = (t, sorted({v_.v for _, v_ in t.args[0].items if isinstance(v_, Const) and isinstance(v_.v, int)}))
+                elif isinstance(t, Sym) and t.path in NOATTR and not any(key(t) in k_ for k_ in atoms):
+                    atoms[key(t)] = (t, [0, 1])
+            for ak, (at, vals) in sorted(atoms.items()):
+                def ival(t, v):
+                    if key(t) == ak:
+                        return v
+                    if isinstance(t, Const):
+                        return int(t.v) if isinstance(t.v, (int, bool)) else 0
+                    if isinstance(t, Op) and len(t.args) == 2 and t.op in ("|", "+", "<<", ">>", "&", "^", "*", "-"):
+                        x, y = ival(t.args[0], v), ival(t.args[1], v)
+                        return {"|": x | y, "+": x + y, "<<": x << min(y, 40), ">>": x >> min(y, 40), "&": x & y, "^": x ^ y, "*": x * y, "-": max(x - y, 0)}[t.op]
+                    return 0
+                outs = {v: ival(a, v) for v in vals}
+                moved = 0
+                for v in vals:
+                    moved |= outs[v] ^ outs[vals[0]]
+                pos = {i for i in range(20) if (moved >> i) & 1}
+                ok_ = ELEC_OK.get(mt, {}).get(ba.v, set())
+                ob2.instance("%s MR%d: bits moved by %s" % (mt, ba.v, ak[:60]), {"bits": sorted(pos), "termination / drive bits": sorted(ok_)}, nontrivial=True)
+                if pos - ok_:
+                    w_ = [v for v in vals if (outs[v] ^ outs[vals[0]]) & sum(1 << i for i in pos - ok_)][0]
+                    ob2.refute("electrical-misplaced:%s:MR%d" % (mt, ba.v), "%s MR%d: the setting %s moves bit(s) %s (e.g. code %s gives 0x%x), which JEDEC does not give to termination / drive "
+                               "strength: a latency or mode field the controller assumes fixed changes with an electrical option" %
+                               (mt, ba.v, ak[:80], sorted(pos - ok_), bin(w_), outs[w_]), None)
     ROLE_TAB = {"CL": "cl_to_mr0", "WR": "wr_to_mr0", "CWL": "cwl_to_mr2", "FGR": "fine_refresh_mode_to_mr3"}
     for mt, (fname, seq) in seqs.items():
         reft = R["tables"].get(fname)
@@ -218,7 +271,6 @@ def run(ctx):
         need = {"DDR3": {"CL", "WR"}, "DDR4": {"CL", "WR", "CWL", "FGR"}}.get(mt, set())
         for r_ in sorted(need - {x for x, _ in seen_roles}):
             ob1.unknown("%s: no %s encoding table found in the mode-register terms" % (mt, r_))
-    MRCMD = "DFII_COMMAND_RAS|DFII_COMMAND_CAS|DFII_COMMAND_WE|DFII_COMMAND_CS"
     for mt, (fname, seq) in seqs.items():
         lay = R["layouts"].get(fname, {})
         seen_roles = set()
